@@ -13,7 +13,7 @@ RULE = (
     "every scenario holds a probe whose partial count is 9x its baseline (exceeds prediction, both unit bounds and the "
     "gaussian aggregate bound) in a populated / probe-only county / probe-only state, crossed with every other probe "
     "(status x location), nonparametric and gaussian estimators, alphas {0.5,0.9}, one and two estimands, with and "
-    "without a covariate; plus fully reporting elections and bootstrap runs. Oracle: pred/lower/upper >= counted, finite "
+    "without a covariate; gaussian group structures that mix own calibration models and fallbacks (63 structures of C15) with exceeding partial counts in every group; plus fully reporting elections and bootstrap runs. Oracle: pred/lower/upper >= counted, finite "
     "integers, passthrough and reporting units pred=lower=upper=counted, groups without outstanding units zero width. "
     "non-trivial = the floor was the binding term at at least one enforcement site in the scenario"
 )
@@ -57,6 +57,13 @@ def cases(tier, seed):
     for other in S.probe_types(statuses=["reporting", "unexpected", "zero_baseline", "unit_blocklisted", "tf_above", "nonrep_partial"]):
         for agg in ("all", "pc"):
             out.append(dict(seed=seed, bg=dict(n=16, layout="AA2", partial=2), probes=[list(other)], cfg=S.cfg_for("bs1", agg, "drop", 100)))
+    # gaussian, groups mixing own calibration models and fallbacks (C15's structures): every outstanding unit's partial
+    # count exceeds any bound, so the aggregate floor binds in every group
+    import itertools
+
+    for pat in (["A", "A", "B"], ["A", "A", "A"], ["A", "B"]):
+        for cs in itertools.product([0, 9, 10], repeat=len(pat)):
+            out.append({"structure": {"pattern": pat, "counts": list(cs), "outstanding": [True] * len(pat), "seed": seed}, "seed": seed})
     if tier == "thorough":
         t3 = S.probe_types(statuses=["nonrep_partial", "unexpected", "zero_baseline", "nonrep_exceed", "missing"], locations=["pop0", "newcounty", "newstate"])
         for pr in S.multisets(t3, 2):
@@ -67,7 +74,21 @@ def cases(tier, seed):
 
 
 def describe(case):
+    if "structure" in case:
+        return case
     return {"probes": case["probes"], "bg": case["bg"], "cfg": {k: case["cfg"][k] for k in ("pi_method", "estimands", "features", "aggregates", "alphas", "policy")}}
+
+
+def _structure_units(case):
+    from . import c15
+
+    units, groups, cal_pos, train = c15.build(case["structure"])
+    for k, u in enumerate(u for u in units if u["id"].startswith("v")):
+        u["pev"] = 40.0
+        f = 9 if k % 2 == 0 else 3
+        u["r_dem"], u["r_gop"], u["r_turnout"] = f * u["b_dem"], f * u["b_gop"], f * u["b_turnout"]
+    cfg = E.make_cfg(pi_method="gaussian", estimands=["turnout"], alphas=[0.5, 0.9], aggregates=["postal_code", "county_fips", "unit"], features=[])
+    return units, cfg
 
 
 def _whole(x):
@@ -76,8 +97,12 @@ def _whole(x):
 
 def evaluate(case):
     cov = Counter()
-    units = S.build_units(case)
-    cfg = case["cfg"]
+    if "structure" in case:
+        units, cfg = _structure_units(case)
+        cov["mixed_model_structures"] += 1
+    else:
+        units = S.build_units(case)
+        cfg = case["cfg"]
     pm = cfg["pi_method"]
     res = E.run_estimates(units, cfg)
     V = []
@@ -161,4 +186,5 @@ REQUIRED_COUNTERS = {
     "floor_binding_agg_upper": 5,
     "zero_width_groups": 50,
     "bootstrap_final_units": 50,
+    "mixed_model_structures": 20,
 }
